@@ -489,6 +489,9 @@ static json random_schedule(unsigned long seed, long x) {
 	size_t np = 1 + rnd(F.maxnp);
 	size_t wmax = 1; while (((size_t)1 << (wmax + 1)) <= (size_t)q && wmax < 4) wmax++;
 	size_t w = 1 + rnd(wmax);
+	// now and then the full type width (TMCG_MAX_TYPEBITS = 10) in a group that has room for 2^10 types
+	bool wide = (FOCUS == "c01") && (q >= 2048) && (rnd(12) == 0);
+	if (wide) w = 10;
 	s["np"] = np; s["w"] = w;
 	json ops = json::array();
 	auto add = [&](json o) { ops.push_back(o); };
@@ -509,11 +512,11 @@ static json random_schedule(unsigned long seed, long x) {
 	}
 	// cards: create, mask chains, proofs, open
 	long cid = 0;
-	size_t ncards = 1 + rnd(F.maxcards);
+	size_t ncards = wide ? 1 : 1 + rnd(F.maxcards);
 	size_t T = (size_t)1 << w;
 	std::vector<long> tops;
 	for (size_t c = 0; c < ncards; c++) {
-		size_t t = rnd(T), creator = rnd(np);
+		size_t t = wide ? (rnd(2) ? 512 + rnd(512) : rnd(T)) : rnd(T); size_t creator = rnd(np);
 		long cur = cid++;
 		if (rnd(2)) add({{"op", "Open"}, {"i", creator}, {"t", t}, {"dst", cur}});
 		else {
@@ -526,7 +529,7 @@ static json random_schedule(unsigned long seed, long x) {
 				add({{"op", "VPriv"}, {"i", v}, {"t", t}, {"dst", cur}, {"mut", MUTS[1 + rnd(NMUTS - 2)]}, {"pub", 1 + rnd(4)}});
 			}
 		}
-		size_t chain = rnd(F.maxchain + 1);
+		size_t chain = wide ? rnd(2) : rnd(F.maxchain + 1);
 		for (size_t m = 0; m < chain; m++) {
 			size_t who = rnd(np); long nxt = cid++;
 			add({{"op", "Mask"}, {"i", who}, {"src", cur}, {"dst", nxt}, {"tap", rnd(2) == 0}});
